@@ -35,7 +35,8 @@ RenderWith(rh, r) ==
 Exh(pk, n, lp1) == lp1 > n \/ pk[lp1] = "nil"
 AfterLoop(pk, n, m) == IF Exh(pk, n, m.lastp1) \/ m.cn \/ m.st THEN "no" ELSE "must"
 MInit(pk, n) == [ok |-> TRUE, stk |-> <<>>, lastp1 |-> 0, st |-> FALSE, code |-> 0, body |-> <<>>, cn |-> FALSE,
-                 pend |-> IF pk[0] = "nil" THEN "no" ELSE "must", pan |-> FALSE, escaped |-> FALSE, why |-> ""]
+                 pend |-> IF pk[0] = "nil" THEN "no" ELSE "must", pan |-> FALSE, escaped |-> FALSE, why |-> "",
+                 rh |-> FALSE]          \* rh: a custom ReturnHandler is mapped for this request (set by the trace spec)
 Bad(m, why) == [m EXCEPT !.ok = FALSE, !.why = why]
 HasRec(pk, stk) == \E i \in 1..Len(stk) : pk[stk[i].h] = "rec"
 MStep(pk, n, m, e) ==
@@ -69,7 +70,7 @@ MStep(pk, n, m, e) ==
          ELSE Bad(m, "Next() returned although the chain had to advance")
     [] e.e = "exit" ->
          IF ~m.pan /\ d > 0 /\ m.stk[d].h = e.h /\ ~m.stk[d].inNext /\ m.pend = "body"
-         THEN LET rr == Render(e.ret)
+         THEN LET rr == RenderWith(m.rh, e.ret)
                   m1 == [m EXCEPT !.stk = SubSeq(@, 1, d - 1), !.st = @ \/ rr.wrote,
                                   !.code = IF ~m.st /\ rr.wrote THEN rr.code ELSE @,
                                   !.body = IF rr.wrote /\ rr.body # "" THEN Append(@, rr.body) ELSE @]
